@@ -18,7 +18,7 @@ use futures_core::Stream;
 
 pub const NH: usize = 3; // handles per side
 pub const NF: usize = 2; // futures in flight per side
-pub const ORDER_MAX: usize = 8;
+pub const ORDER_MAX: usize = 12;
 
 // ---- result codes -------------------------------------------------------
 pub const R_NONE: u8 = 0;
@@ -91,6 +91,7 @@ pub const A_ASEND_NEW: u8 = 34; // create the future without polling it
 pub const A_ARECV_NEW: u8 = 35;
 pub const A_CONVERT_S: u8 = 36; // to_async().to_sync() round trip of handle h
 pub const A_CONVERT_R: u8 = 37;
+pub const A_OBSERVE: u8 = 38; // read every observer through sender handle h: len in .tag, flags/counts in .aux
 
 #[derive(Clone, Copy)]
 pub struct Act {
@@ -524,6 +525,30 @@ pub unsafe fn exec<T: Payload + 'static>(cx: *mut Ctx<T>, a: Act) -> Res {
         A_DROP_R => {
             (*cx).r[h] = None;
             RES0
+        }
+        A_OBSERVE => {
+            let sh = (*cx).s[h].as_ref().unwrap();
+            let len = sh.len();
+            let mut aux = 0u8;
+            if sh.is_full() {
+                aux |= 1;
+            }
+            if sh.is_empty() {
+                aux |= 2;
+            }
+            if sh.is_closed() {
+                aux |= 4;
+            }
+            if sh.is_disconnected() {
+                aux |= 8;
+            }
+            aux |= ((sh.sender_count() as u8) & 3) << 4;
+            aux |= ((sh.receiver_count() as u8) & 3) << 6;
+            Res {
+                code: R_NONE,
+                tag: len as u8,
+                aux,
+            }
         }
         A_CONVERT_S => {
             let x = (*cx).s[h].take().unwrap();
